@@ -38,6 +38,7 @@
 #include "upipe-modules/upipe_rate_limit.h"
 #include "upipe-modules/upipe_queue_sink.h"
 #include "upipe-modules/upipe_queue_source.h"
+#include "lib/upipe-modules/upipe_queue.h"     /* private: layout of a request crossing a queue */
 #include "upipe-modules/upipe_dump.h"
 #include "upipe-modules/upipe_multicat_probe.h"
 #include "upipe-modules/upipe_discard_blocking.h"
@@ -1256,17 +1257,26 @@ struct c12_req {
     bool probe_lodged;          /* thrown to the probe of the end-of-chain pipe since the last re-plumbing */
 };
 static struct c12_req C12R[C12_MAXR];
-static struct upipe *c12_pipes[C12_MAXP];
-static int c12_pipe_ids[C12_MAXP];
-static int c12_out[C12_MAXP];      /* -2 next pipe, -1 none, >= 0 sink index */
+static struct upipe *c12_pipes[C12_MAXP + 1];
+static int c12_pipe_ids[C12_MAXP + 1];
+static int c12_out[C12_MAXP + 1];      /* -2 next pipe, -1 none, >= 0 sink index */
 static int c12_n;
 static struct upipe *c12_sinks[3];
+/* optional queue at the end of the chain: the last element of c12_pipes is a
+ * queue sink, whose requests and answers cross to / from the queue source
+ * through out-of-band messages handled by pumps of the mock loop */
+static struct upipe *c12_qsrc;
+static int c12_qsrc_id;
+static bool c12_has_q;
+static int c12_cb_depth;
 
 static struct c12_req *c12_origin(struct urequest *r)
 {
     for (int depth = 0; r && depth < 8; depth++) {
         for (int i = 0; i < C12_MAXR; i++) if (r == &C12R[i].req) return &C12R[i];
-        r = urequest_get_opaque(r, struct urequest *);
+        /* the queue source lodges the request embedded in a upipe_queue_request, whose opaque is the queue source itself */
+        if (c12_qsrc && urequest_get_opaque(r, struct upipe *) == c12_qsrc) r = upipe_queue_request_from_urequest(r)->upstream;
+        else r = urequest_get_opaque(r, struct urequest *);
     }
     return NULL;
 }
@@ -1285,6 +1295,15 @@ static int c12_provide(struct urequest *req, va_list args)
     }
     if (!r->registered) r->late++;
     else { r->provided++; if (!ok) r->bad_value = true; }
+    /* like the require_* helpers of the library, a requester may renew its
+     * request from inside the callback (unregister + register) */
+    if (r->registered && c12_cb_depth == 0 && c12_pipes[0] && vh_chance(R, 1, 4)) {
+        c12_cb_depth++;
+        upipe_unregister_request(c12_pipes[0], &r->req);
+        upipe_register_request(c12_pipes[0], &r->req);
+        c12_cb_depth--;
+        VH_COUNT("c12.renewed_in_callback");
+    }
     return UBASE_ERR_NONE;
 }
 
@@ -1294,7 +1313,7 @@ static bool c12_probe_hook(struct rprobe *rp, struct upipe *upipe, int event, va
     if (event == UPROBE_PROVIDE_REQUEST) {
         struct urequest *req = va_arg(args, struct urequest *);
         struct c12_req *r = c12_origin(req);
-        if (r) for (int k = 0; k < c12_n; k++) if (c12_pipe_ids[k] == rp->id) r->probe_lodged = true;
+        if (r) for (int k = 0; k < c12_n; k++) if (c12_pipe_ids[k] == rp->id || (c12_has_q && rp->id == c12_qsrc_id)) r->probe_lodged = true;
     }
     return false;   /* let the real providers answer */
 }
@@ -1311,6 +1330,7 @@ int lab_sink_count_match(struct upipe *sink, bool (*match)(struct urequest *, vo
 
 static void c12_quiescent_check(const char *after)
 {
+    if (c12_has_q) mockloop_run(E.upump_mgr, R, 10000, 16);
     int end = c12_end_of_chain();
     char key[96];
     for (int i = 0; i < C12_MAXR; i++) {
@@ -1351,6 +1371,22 @@ static void c12_case(struct vh_rng *r)
         strcat(names, nm); strcat(names, ">");
         vh_count_dyn("c12.pipe.%s", nm);
     }
+    c12_qsrc = NULL; c12_has_q = false; c12_cb_depth = 0;
+    if (c12_n < C12_MAXP + 1 && vh_chance(R, 1, 3)) {
+        struct upipe_mgr *qm = upipe_qsrc_mgr_alloc();
+        c12_qsrc = upipe_qsrc_alloc(qm, lab_probe_new("qsrc", &c12_qsrc_id), 1 + vh_below(R, 4));
+        upipe_mgr_release(qm);
+        struct upipe_mgr *sm = upipe_qsink_mgr_alloc();
+        c12_pipes[c12_n] = upipe_qsink_alloc(sm, lab_probe_new("qsink", &c12_pipe_ids[c12_n]), c12_qsrc);
+        upipe_mgr_release(sm);
+        if (!c12_qsrc || !c12_pipes[c12_n]) vh_violation("c04:alloc-failed", "queue allocation failed");
+        upipe_attach_upump_mgr(c12_qsrc);      /* the queue source creates its watchers on its first control command */
+        c12_n++;
+        c12_has_q = true;
+        strcat(names, "qsink|qsrc>");
+        VH_COUNT("c12.chains_with_queue");
+        mockloop_run(E.upump_mgr, R, 1000, 4);
+    }
     for (int k = 0; k < c12_n - 1; k++) { upipe_set_output(c12_pipes[k], c12_pipes[k + 1]); c12_out[k] = -2; }
     c12_out[c12_n - 1] = -1;
     for (int k = 0; k < 3; k++) { c12_sinks[k] = lab_sink_new("sink", NULL); lab_sink_set_request_mode(c12_sinks[k], vh_below(R, 3)); }
@@ -1373,6 +1409,8 @@ static void c12_case(struct vh_rng *r)
             VH_COUNT("c12.register");
             /* with real providers behind the probes, managers and clocks are answered at once */
             int end = c12_end_of_chain();
+            bool via_q = c12_has_q && end == c12_n - 1;
+            if (via_q) mockloop_run(E.upump_mgr, R, 10000, 16);
             bool answered_now = (c12_out[end] == -1 && (q->type == UREQUEST_UREF_MGR || q->type == UREQUEST_UCLOCK || q->type == UREQUEST_UBUF_MGR)) ||
                                 (c12_out[end] >= 0 && lab_sink_id(c12_sinks[c12_out[end]]) >= 0 && 0);
             if (c12_out[end] == -1 && !q->probe_lodged)
@@ -1397,7 +1435,8 @@ static void c12_case(struct vh_rng *r)
             if (o >= 0) { bool used = false; for (int j = 0; j < c12_n; j++) if (j != k && c12_out[j] == o) used = true; if (used) continue; }
             OP("set_output(p%d,%d)", k, o);
             for (int q = 0; q < C12_MAXR; q++) C12R[q].probe_lodged = false;
-            upipe_set_output(c12_pipes[k], o == -2 ? c12_pipes[k + 1] : o == -1 ? NULL : c12_sinks[o]);
+            struct upipe *target = c12_has_q && k == c12_n - 1 ? c12_qsrc : c12_pipes[k];
+            upipe_set_output(target, o == -2 ? c12_pipes[k + 1] : o == -1 ? NULL : c12_sinks[o]);
             c12_out[k] = o;
             VH_COUNT("c12.replumb");
         } else if (c < 85) {
@@ -1407,6 +1446,7 @@ static void c12_case(struct vh_rng *r)
             for (int q = 0; q < C12_MAXR; q++) before[q] = C12R[q].provided;
             lab_sink_provide_all(c12_sinks[sidx]);
             int end = c12_end_of_chain();
+            if (c12_has_q) mockloop_run(E.upump_mgr, R, 10000, 16);
             for (int q = 0; q < C12_MAXR; q++)
                 if (C12R[q].registered && c12_out[end] == sidx && C12R[q].provided == before[q])
                     vh_violation("c12:answer-not-delivered", "sink %d provided request r%d (%s) but the original requester's callback was not invoked", sidx, q, urequest_type_str(C12R[q].type));
@@ -1424,9 +1464,10 @@ static void c12_case(struct vh_rng *r)
     /* teardown: some requests are withdrawn first, the others stay pending */
     for (int q = 0; q < C12_MAXR; q++)
         if (C12R[q].registered && vh_chance(R, 1, 2)) { C12R[q].registered = false; upipe_unregister_request(c12_pipes[0], &C12R[q].req); urequest_clean(&C12R[q].req); C12R[q].req.uref = NULL; }
-    int order[C12_MAXP] = { 0, 1, 2 };
+    int order[C12_MAXP + 1] = { 0, 1, 2, 3 };
     for (int k = c12_n - 1; k > 0; k--) { int j = vh_below(R, k + 1); int t = order[k]; order[k] = order[j]; order[j] = t; }
-    for (int k = 0; k < c12_n; k++) { upipe_release(c12_pipes[order[k]]); }
+    for (int k = 0; k < c12_n; k++) { upipe_release(c12_pipes[order[k]]); c12_pipes[order[k]] = NULL; }
+    if (c12_has_q) { mockloop_run(E.upump_mgr, R, 10000, 16); upipe_release(c12_qsrc); mockloop_run(E.upump_mgr, R, 10000, 16); }
     /* the pipes are gone: nothing of theirs may remain lodged on the sinks */
     for (int q = 0; q < C12_MAXR; q++) {
         C12R[q].registered = false;      /* pending requests die with the pipe they were registered on */
